@@ -10,7 +10,7 @@ Open Scope N_scope.
 
 (* the translated WRAPPER_VBYTES is the interned size of the wrapper (q . (() . ())) around an empty list *)
 Theorem C10_wrapper_vbytes : interned_vbytes (wrap_generator nil) = WRAPPER_VBYTES.
-Proof. vm_compute. reflexivity. Qed.
+Proof. exact wrapper_vbytes_value. Qed.
 
 (* (3) triangle inequality over the translated constants *)
 Theorem C10_triangle : forall items : list sexp,
